@@ -143,6 +143,22 @@ pub fn mutate_multibyte(s: &mut Src, base: &str, rate_256: usize) -> String {
     out
 }
 
+pub const UNICODE_WS: &[&str] = &["\u{b}", "\u{c}", "\u{85}", "\u{a0}", "\u{1680}", "\u{2003}", "\u{2009}", "\u{2028}", "\u{2029}", "\u{202f}", "\u{205f}", "\u{3000}", "\t", "\r"];
+
+/// replace some ASCII blanks by other Unicode White_Space characters (every whitespace position
+/// of a generated input becomes a position for non-ASCII whitespace)
+pub fn mutate_unicode_ws(s: &mut Src, base: &str, rate_256: usize) -> String {
+    let mut out = String::with_capacity(base.len() + 8);
+    for ch in base.chars() {
+        if ch == ' ' && s.below(256) < rate_256 {
+            out.push_str(s.pick(UNICODE_WS));
+        } else {
+            out.push(ch);
+        }
+    }
+    out
+}
+
 /// insert line feeds at random positions (C04)
 pub fn mutate_linefeeds(s: &mut Src, base: &str, rate_256: usize) -> String {
     let mut out = String::with_capacity(base.len() * 2);
